@@ -336,6 +336,30 @@ def rule_g(prog, rep):
             rep.undecided("R-C01-g", w, cons, "an early return whose index is not the one built from the scan; cannot decide that it holds every uncommon row")
 
 
+def rule_g_breaks(prog, rep):
+    """No scan loop of from_array is left early: every (value, column) pair has to be looked at.  A `break` that claims
+    `all occurrences found` rests on a running count; it is VIOLATED when that count is fed by an array that also holds
+    the rows of other values (the result of a union with an earlier entry), UNDECIDED otherwise."""
+    fi, I, fr = run_from_array(prog)
+    where = fi.fq
+    brs = [e for e in I.events if e.kind == "break" and not e.stack]
+    n = 0
+    for e in brs:
+        n += 1
+        w = "%s@%d" % (where, e.line)
+        cons = "from_array: `break` out of a scan loop"
+        g = flat_guards(e.guards)
+        merged = any(tm.contains(c, lambda x: x.op == "call" and (tm.callee_name(x) or "").split(":")[-1] in ("union", "set_union_merge_np", "numpy.union1d", "union1d", "numpy.concatenate")) for c, pol in g)
+        if merged:
+            rep.violated("R-C01-g", w, cons, "the loop over the columns stops when a running count is used up, but the count is reduced by the length of a MERGED row list (this value's rows united with an earlier value's): "
+                         "with a many-to-one mapping the loop stops too soon and the later columns are never scanned for this value",
+                         witness={"inputs": "a 2-D array with two codes mapped onto one value: cells of the later columns come back as the common value"})
+        else:
+            rep.undecided("R-C01-g", w, cons, "an early exit from a scan loop: cannot show that every occurrence has been seen")
+    if not brs:
+        rep.proved("R-C01-g", where, "from_array: no scan loop is left early", "no break statement in the construction")
+
+
 def rule_i(prog, rep):
     fi = prog.func("iindexes", "iindex.from_array")
     where = fi.fq
@@ -465,6 +489,7 @@ def main(tier):
     rule_d(prog, rep)
     rule_e(prog, rep)
     rule_g(prog, rep)
+    rule_g_breaks(prog, rep)
     rule_i(prog, rep)
     import c17
     st17 = {"events": 0, "mods": 0, "diagnostic": {}, "exceptions": {}, "regions": 0, "shortcuts": 0}
